@@ -241,6 +241,10 @@ func (sc *c13Scenario) main() {
 	_ = os.MkdirAll(rec.root, 0o750)
 	rec.install()
 	defer rec.uninstall()
+	if err := rec.watchDir(filepath.Join(sc.victim.folder, "multibeacon", "default", "groups")); err != nil {
+		run.Note("inotify watch failed: " + err.Error())
+	}
+	defer rec.stopWatch()
 	nt.startPacer()
 
 	// what the victim actually serves over gRPC (asynchronous observer; the Put tap gives the rest)
@@ -269,7 +273,7 @@ func (sc *c13Scenario) main() {
 		run.Inconclusive(fmt.Sprintf("case %d: %s: %v", p.CaseIndex, stage, err))
 	}
 	// ---- epoch 1
-	g1, err := nt.runInitialDKG(ns, p.Thr, 4*time.Second)
+	g1, err := nt.runInitialDKG(ns, p.Thr, 6*time.Second)
 	if err != nil {
 		fail("initial DKG", err)
 		close(stopPoll)
